@@ -121,7 +121,9 @@ func NewDriver(
 	host string,
 	opts ...util.Option,
 ) (*Driver, error) {
-	opts = append(opts, withNetconfConnection(true))
+	// append to a copy: the slice is the caller's (it may be a part of a longer one), appending to it in
+	// place would overwrite what follows it in the caller's backing array
+	opts = append(append(make([]util.Option, 0, len(opts)+1), opts...), withNetconfConnection(true))
 
 	// create the generic driver just to yoink the transport and channel out of it, by doing this
 	// all the "normal" options get applied, then we just take the parts we care about. we very much
